@@ -20,8 +20,11 @@ sys.path.insert(0, os.path.dirname(os.path.abspath(__file__)))
 from vlib import kani, props, replay, scratch  # noqa: E402
 
 VERIF = scratch.VERIF
-EVIDENCE = os.path.join(VERIF, "evidence")
-REPLAYS = os.path.join(VERIF, "replays")
+# VERIF_OUT: developer switch for runs against a scratch tree (VERIF_REPO), so that they do not
+# overwrite the evidence of the registered checks, which always run against /repo.
+OUT = os.environ.get("VERIF_OUT", VERIF)
+EVIDENCE = os.path.join(OUT, "evidence")
+REPLAYS = os.path.join(OUT, "replays")
 KNOWN = os.path.join(VERIF, "known_findings.json")
 
 
